@@ -32,7 +32,7 @@ from ..engine.report import AnalysisError, Run, first_line
 from ..engine.resolver import FuncNode, Program, walk_no_nested
 from ..engine.sympath import SymUnsupported, sym_block
 from ..engine.util import find_calls, method_call, u
-from ._c17_util import (FIELDS, GROUP, Side, agg_term, bind_target, elem_of, fold_loops, index_fields, is_name,
+from ._c17_util import (FIELDS, GROUP, Side, agg_term, availability, bind_target, elem_of, nonempty_test, fold_loops, index_fields, is_name,
                         loop_passes, name, prepared, record_fields, returns_of, seg, set_elem, simple_call, splice, strip_doc)
 
 MC = "timeseries.battery_pool._metric_calculator"
@@ -144,18 +144,12 @@ def advertised(prog: Program) -> dict[str, Any]:
     if not per_return:
         wiring_ok = False
 
-    def data_guard(test: ast.AST) -> bool:
-        """`len(L) == 0`, `L`, `not L`, `len(L) > 0` … for a list L of validated component bounds"""
-        operands = [test.left] + list(test.comparators) if isinstance(test, ast.Compare) else [test]
-        lists = []
-        for x in operands:
-            inner = simple_call(x, ("len",), 1)
-            x = inner[0] if inner is not None else x
-            if not (isinstance(x, ast.Constant) and isinstance(x.value, int)):
-                lists.append(x)
-        return len(lists) == 1 and vcall(elem_of(lists[0])) is not None
+    def data_guard(test: ast.AST, outcome: bool) -> bool:
+        """the adding pass requires exactly: a list of validated component bounds is not empty"""
+        lst = nonempty_test(test, outcome)
+        return lst is not None and vcall(elem_of(lst)) is not None
 
-    guards_ok = all(data_guard(t) for t, _o in guards)
+    guards_ok = all(data_guard(t, o) for t, o in guards)
     terms = _agree(per_return) if per_return else {}
     loops = [s for s in strip_doc(node.body) if isinstance(s, ast.For)
              and find_calls(s, lambda c: _is_aggregator(prog, fn.module, c))]
@@ -291,12 +285,17 @@ def _pair_data_ok(prog: Program) -> tuple[Any, bool]:
     pair_fields = record_fields(prog, BDA_MOD, "InvBatPair")
     n = 0
     ok = True
-    for p in returns_of(prepared(prog, gbi), gbi.qual):
+    node = prepared(prog, gbi)
+    for p in returns_of(node, gbi.qual):
         r = p.ret
         if r is None or _is_none(r):
             continue
         n += 1
         good = isinstance(r, ast.Call) and _callee(r) == "InvBatPair"
+        # the pair is returned exactly when the data is there: every condition on the way says "available"
+        for _k, _ko, test, _ln, outcome in p.conds:
+            kind = availability(prog, gbi, node, test)
+            good = good and ((kind == "present" and outcome) or (kind == "missing" and not outcome))
         if good:
             a = positional(r, pair_fields)  # type: ignore[arg-type]
             bat, inv = a.get(pair_fields[0]), a.get(pair_fields[1])
@@ -313,9 +312,10 @@ def _pair_data_ok(prog: Program) -> tuple[Any, bool]:
     return gbi, ok and n > 0
 
 
-def _enforced_groups(prog: Program) -> tuple[Any, bool, bool]:
+def _enforced_groups(prog: Program) -> tuple[Any, bool, bool, bool]:
     """_get_components_data: (fn, groups form a set of _bat_bats_map images, every group's data is read
-    for the whole group and the inverters of one of its batteries)."""
+    for the whole group and the inverters of one of its batteries, every group's pair is appended to the
+    returned list unless its data is None)."""
     gcd = prog.func(f"{BMM}:BatteryManager._get_components_data")
     node = prepared(prog, gcd)
     gbi = prog.func(f"{BMM}:BatteryManager._get_battery_inverter_data")
@@ -325,11 +325,14 @@ def _enforced_groups(prog: Program) -> tuple[Any, bool, bool]:
 
     loops = [s for s in strip_doc(node.body) if isinstance(s, ast.For) and find_calls(s, is_data_call)]
     if len(loops) != 1 or not isinstance(loops[0].target, ast.Name):
-        return gcd, False, False
+        return gcd, False, False, False
     loop = loops[0]
-    lp = loop_passes(node, loop)
+    results = {r.value.id if isinstance(r.value, ast.Name) else "" for r in walk_no_nested(node)
+               if isinstance(r, ast.Return)}
+    res = next(iter(results)) if len(results) == 1 else ""
+    lp = loop_passes(node, loop, symbolic=(res,))
     if lp is None:
-        return gcd, False, False
+        return gcd, False, False, False
     it, _env, _full, passes = lp
     g = loop.target.id
     el = set_elem(it)
@@ -342,7 +345,19 @@ def _enforced_groups(prog: Program) -> tuple[Any, bool, bool]:
         whole = whole and len(c.args) + len(c.keywords) == 2 and set(a) == set(gbi.params[1:]) \
             and u(a[gbi.params[1]]) == g \
             and u(a[gbi.params[2]]) == f"{gcd.params[0]}._bat_invs_map[next(iter({g}))]"
-    return gcd, once, whole
+    kept = bool(res)
+    n_kept = 0
+    for p in passes:
+        if p.exit == "raise":
+            continue
+        stored = [c for c in p.calls(lambda c: method_call(c, res, "append"))
+                  if len(c.node.args) == 1 and isinstance(c.node.args[0], ast.Call) and is_data_call(c.node.args[0])]
+        no_data = any(isinstance(t, ast.Compare) and len(t.ops) == 1 and isinstance(t.ops[0], (ast.Is, ast.IsNot))
+                      and isinstance(t.left, ast.Call) and is_data_call(t.left) and _is_none(t.comparators[0])
+                      and isinstance(t.ops[0], ast.Is) == o for _k, _ko, t, _ln, o in p.conds)
+        n_kept += 1 if stored else 0
+        kept = kept and (bool(stored) != no_data)
+    return gcd, once, whole, kept and n_kept > 0
 
 
 def _metric_tables(prog: Program, adv: dict[str, Any]) -> tuple[Any, dict[str, bool]]:
@@ -476,8 +491,9 @@ def check_agg(run: Run, prog: Program) -> None:
     gbi, ok = _pair_data_ok(prog)
     run.analysed(gbi.qual)
     run.check(ok, "C17.AGG", gbi.qual, "InvBatPair(AggregatedBatteryData(battery_data), inverter_data)",
-              "the enforced side does not aggregate the group's batteries through AggregatedBatteryData "
-              "(all batteries and all inverters it was given)", node=gbi.node, file=gbi.file)
+              "the enforced side does not aggregate the group's batteries through AggregatedBatteryData (all "
+              "batteries and all inverters it was given), or does not return the pair exactly when every cache "
+              "has a value and no crucial metric is NaN", node=gbi.node, file=gbi.file)
     # every group counted once, with all its batteries and inverters, on both sides
     me, working = afn.params[0], afn.params[2]
     groups = adv["groups"]
@@ -488,7 +504,7 @@ def check_agg(run: Run, prog: Program) -> None:
     run.check(ok, "C17.AGG", afn.qual, "battery_sets = {bat_bats_map[b] for b in working_batteries}",
               "the advertised side does not count every battery group exactly once (a set of groups): a "
               "group with several working batteries would be added once per battery", node=afn.node, file=afn.file)
-    gcd, once, whole = _enforced_groups(prog)
+    gcd, once, whole, kept = _enforced_groups(prog)
     run.analysed(gcd.qual)
     run.check(once, "C17.AGG", gcd.qual, "battery_sets = frozenset(bat_bats_map[b] for b in working_batteries)",
               "the enforced side does not count every battery group exactly once", node=gcd.node, file=gcd.file)
@@ -503,6 +519,10 @@ def check_agg(run: Run, prog: Program) -> None:
               "the enforced side reads a different battery/inverter set for a group than the advertised side "
               "(e.g. only the working batteries of the group): for the same component data the two "
               "inclusion bounds differ", node=gcd.node, file=gcd.file)
+    run.check(kept, "C17.AGG", gcd.qual, "every group with data is appended to the returned pairs",
+              "the enforced side does not hand every group whose data is available to the bounds aggregation "
+              "(pair not appended, or appended / skipped under another condition than `data is None`): the "
+              "enforced bounds leave out a group the advertised ones count", node=gcd.node, file=gcd.file)
     # positional tables of the calculator
     init, tables = _metric_tables(prog, adv)
     run.analysed(init.qual)
@@ -552,6 +572,9 @@ def check_acc(run: Run, prog: Program) -> None:
         if getattr(res, "cls", None) == "OutOfBounds":
             return ("bad", [f"P is inside the advertised bounds but the request is rejected as OutOfBounds "
                             f"(adjust_power={ctx['adjust']})"])
+        if ctx["ids"] == "known ids" and res is not None:
+            return ("bad", [f"P is inside the advertised bounds and the request names known batteries, but it is "
+                            f"not accepted: answered {getattr(res, 'cls', res)!s} (adjust_power={ctx['adjust']})"])
         return None
 
     fn, outs = explore_admission(prog, post, extra)
@@ -588,6 +611,15 @@ CONTROLS = [
     ("inverter exclusion guard dropped", BDA_MOD,
      "                        not is_close_to_zero(remaining_power)\n                        and excl_bounds[inverter_id] <= remaining_power\n",
      "                        not is_close_to_zero(remaining_power)\n", "C17.DIST"),
+    ("requests naming batteries are answered 'empty ids'", BMM,
+     "        if not request.component_ids:\n", "        if request.component_ids:\n", "C17.ACC"),
+    ("a group with exactly one battery reading is left out of the advertised bounds", MC,
+     "            if len(battery_bounds) == 0:\n", "            if len(battery_bounds) == 1:\n", "C17.AGG"),
+    ("a group's pair is not handed to the bounds aggregation", BMM,
+     "            pairs_data.append(data)\n", "            pass\n", "C17.AGG"),
+    ("the pair is returned only when a crucial battery metric is NaN", BMM,
+     "        if nan_metric_in_list(battery_data, crucial_metrics_bat):\n",
+     "        if not nan_metric_in_list(battery_data, crucial_metrics_bat):\n", "C17.AGG"),
 ]
 
 
@@ -623,7 +655,7 @@ _CMP = {ast.Lt: "<", ast.Gt: ">", ast.LtE: "<=", ast.GtE: ">="}
 
 
 def structural_controls(prog: Program) -> list[tuple[str, str, str, str, str]]:  # noqa: C901
-    """The seven controls located by structure in the tree under analysis (whole source -> patched
+    """The controls located by structure in the tree under analysis (whole source -> patched
     source), so that the same defects are injected into any surface form of the anchors; a site that
     cannot be located falls back to the textual control (reported as skipped when it does not apply)."""
     built: dict[str, tuple[str, str]] = {}
@@ -721,6 +753,37 @@ def structural_controls(prog: Program) -> list[tuple[str, str, str, str, str]]: 
                   and any(isinstance(x, ast.Subscript) and is_name(x.value, excl) for x in [c.left, c.comparators[0]])]
         if len(guards) == 1:
             add(CONTROLS[6][0], BDA_MOD, [(guards[0], "True")])
+    # 8. the emptiness test of the requested ids is inverted
+    empt = [t for m in gb.methods.values() for i in ast.walk(m.node) if isinstance(i, ast.If)
+            for t in [i.test] if isinstance(t, ast.UnaryOp) and isinstance(t.op, ast.Not)
+            and isinstance(t.operand, ast.Attribute) and t.operand.attr == "component_ids"]
+    if len(empt) == 1:
+        add(CONTROLS[7][0], BMM, [(empt[0], seg(bsrc, empt[0].operand))])
+    # 9. a data guard of the advertised group loop tests `== 1` instead of `== 0`
+    calc_fn = calc.methods.get("calculate")
+    if calc_fn is not None:
+        zeros = sorted((c.lineno, c.col_offset, k) for c in ast.walk(calc_fn.node) if isinstance(c, ast.Compare)
+                       and len(c.ops) == 1 for a, k in ((c.left, c.comparators[0]), (c.comparators[0], c.left))
+                       if simple_call(a, ("len",), 1) is not None and isinstance(k, ast.Constant) and k.value == 0
+                       and isinstance(k.value, int) and not isinstance(k.value, bool))
+        if zeros:
+            add(CONTROLS[8][0], MC, [(zeros[0][2], "1")])
+    # 10. the group's pair is not appended to the returned list
+    gcd = gb.methods.get("_get_components_data")
+    if gcd is not None:
+        outs = {r.value.id for r in walk_no_nested(gcd.node) if isinstance(r, ast.Return) and isinstance(r.value, ast.Name)}
+        apps = [st for st in ast.walk(gcd.node) if isinstance(st, ast.Expr) and isinstance(st.value, ast.Call)
+                and len(outs) == 1 and method_call(st.value, next(iter(outs)), "append")]
+        if len(apps) == 1:
+            add(CONTROLS[9][0], BMM, [(apps[0], "pass")])
+    # 11. a NaN test that drops the group is inverted
+    gbi = gb.methods.get("_get_battery_inverter_data")
+    if gbi is not None:
+        drops = sorted((i.lineno, i.test) for i in walk_no_nested(gbi.node) if isinstance(i, ast.If) and not i.orelse
+                       and isinstance(i.test, ast.Call) and isinstance(i.body[-1], ast.Return)
+                       and (i.body[-1].value is None or _is_none(i.body[-1].value)))
+        if drops:
+            add(CONTROLS[10][0], BMM, [(drops[0][1], f"not {seg(bsrc, drops[0][1])}")])
     return [(nm, module, *built.get(nm, (old, new)), rule) for nm, module, old, new, rule in CONTROLS]
 
 
@@ -744,7 +807,8 @@ def check(run: Run, prog: Program, tier: str) -> str:
     run.floor("C17.DIST", 4)
     from ..engine.controls import run_controls
 
-    run_controls(run, structural_controls(prog), run_rules, tier, base_prog=prog)
+    parts = {"C17.AGG": check_agg, "C17.ACC": check_acc, "C17.DIST": check_dist}
+    run_controls(run, structural_controls(prog), run_rules, tier, base_prog=prog, select=lambda rule: parts[rule])
     run.assume("inverter exclusion bounds satisfy lower <= 0 <= upper; lattice lemmas Σ_g max(a,b) >= "
                "max(Σa, Σb), Σ_g min(a,b) <= min(Σa, Σb), min_i x_i <= Σ_i x_i for x >= 0")
     run.undecided("equality of the *data* the two sides see at run time (the property says 'for the same "
